@@ -238,8 +238,82 @@ fn region_strategy(ctx: &Ctx) -> BoxedStrategy<RegionCase> {
         .boxed()
 }
 
+// --- nothing observable depends on the padding ------------------------------------
+
+#[derive(Clone, Debug, Serialize, Deserialize)]
+pub struct PadCase {
+    pub kind: u32,
+    pub n: u16,
+    pub sel: u32,
+    pub key: u64,
+}
+
+/// The tag, its padding filled with `pad`, followed by a neighbour tag whose
+/// bytes are `nb`.
+fn pad_image(c: &PadCase, pad: u8, nb: u8) -> Vec<u8> {
+    let mut img = mb2_model::encode::conformant_tag(c.kind, c.key, c.n as usize, c.sel);
+    mb2_model::encode::pad8(&mut img, pad);
+    let mut next = vec![nb; 16];
+    put32(&mut next, 4, 16);
+    img.extend_from_slice(&next);
+    img
+}
+
+pub fn eval_pad(c: &PadCase, obs: &mut Obs) -> Result<(), String> {
+    let (ia, ib) = (pad_image(c, 0x00, 0x11), pad_image(c, 0xFF, 0xEE));
+    let size = le32(&ia, 4) as usize;
+    let (a, b) = (Aligned::new(&ia), Aligned::new(&ib));
+    let opts = MbiOpts { debug: false, max_steps: 64, typed_all: true };
+    let ta = unsafe { mb2_model::exercise_mbi::exercise_single_tag(a.as_ptr(), ia.len(), c.kind, &opts) };
+    let tb = unsafe { mb2_model::exercise_mbi::exercise_single_tag(b.as_ptr(), ib.len(), c.kind, &opts) };
+    obs.class(format!("!kind-{}", c.kind));
+    obs.class(if size % 8 == 0 { "no-padding" } else { "padded" });
+    if size % 8 != 0 {
+        obs.nontrivial(fnv(&ia) ^ c.kind as u64);
+        obs.sample(json!({"kind": c.kind, "declared_size": size, "padding_bytes": r8(size) - size}));
+    }
+    let (sa, sb): (Vec<_>, Vec<_>) = (ta.lines.iter().filter(|(k, _)| stored(k)).collect(), tb.lines.iter().filter(|(k, _)| stored(k)).collect());
+    if sa != sb {
+        let d = sa.iter().zip(sb.iter()).find(|(x, y)| x != y).map(|(x, y)| format!("`{} = {}` vs `{} = {}`", x.0, x.1.render(), y.0, y.1.render())).unwrap_or_else(|| format!("{} vs {} results", sa.len(), sb.len()));
+        return Err(format!("kind {} declared size {size}: two copies that differ only in their padding and in the following tag give different results: {d}", c.kind));
+    }
+    // the two copies, alive at the same time, through the type's own equality,
+    // ordering and hashing
+    let ga = multiboot2_common::DynSizedStructure::<multiboot2::TagHeader>::ref_from_slice(&a.as_slice()[..r8(size)]).map_err(|e| format!("{e:?}"))?;
+    let gb = multiboot2_common::DynSizedStructure::<multiboot2::TagHeader>::ref_from_slice(&b.as_slice()[..r8(size)]).map_err(|e| format!("{e:?}"))?;
+    match mb2_model::relate::relate(c.kind, ga, gb, true) {
+        Val::B(true) | Val::None => Ok(()),
+        v => Err(format!("kind {} declared size {size}: two copies that differ only in their {} padding byte(s) do not compare equal / hash equally / order as equal ({})", c.kind, r8(size) - size, v.render())),
+    }
+}
+
+fn enumerate_pad(_: &Ctx) -> Box<dyn Iterator<Item = PadCase>> {
+    Box::new((1u32..=21).flat_map(|kind| (0..=24u16).flat_map(move |n| [0u32, 1, 2, 0x0100 | 1].into_iter().map(move |sel| PadCase { kind, n, sel, key: 0xAD + kind as u64 * 64 + n as u64 }))))
+}
+
+fn strategy_pad(_: &Ctx) -> BoxedStrategy<PadCase> {
+    (1u32..=21, 0u16..64, any::<u32>(), any::<u64>())
+        .prop_map(|(kind, n, mut sel, key)| {
+            // conformant casts only: no spec-text ELF layout, framebuffer types as they come
+            sel &= 0x3FFF_FFFF;
+            PadCase { kind, n, sel, key }
+        })
+        .boxed()
+}
+
 pub fn subs() -> Vec<Box<dyn Sub>> {
     vec![
+        Box::new(PropSub::<PadCase> {
+            name: "padding-metamorphic",
+            rule: "a conformant tag of every kind 1..=21 in two copies that are alive at the same time and differ only outside the declared size (padding 0x00 / 0xFF, different following tag). Metamorphic oracle: every stored result of the full typed exercise is identical for the two copies, and - where the type implements them - ==, !=, cmp and hash treat the two as equal (in both directions). Enumerated: every kind x content steering 0..=24 x 4 variants; generated: random content. Non-trivial = declared size not a multiple of 8; distinct by image hash",
+            profiles: Profiles::Both,
+            quick: 4000,
+            thorough: 200000,
+            strategy: strategy_pad,
+            enumerate: Some(enumerate_pad),
+            enum_exhaustive: false,
+            eval: eval_pad,
+        }),
         Box::new(PropSub::<Case> {
             name: "size-sweep",
             rule: "every variable-length kind (cmdline, boot-loader name, module, mmap, framebuffer, ELF, SMBIOS, network, EFI map; header information request) as a stand-alone tag ending near a PROT_NONE page: layout [tag][padding 0x5A][marker tag 0xA5]; enumerated: every declared size 0..=image+16 for content steerings {0,2,5} (thorough {0,1,2,3,5,9}) and variants (framebuffer type 0/1/2, ELF32/64, EFI stride 40/48/56); generated: longer contents, random sizes. Oracle: size below the fixed part / remainder / beyond the slice => rejected; otherwise the exposed part is exactly bytes[fixed..size] (offset, length, element values; network via its Debug byte list, EFI map via Debug buf_len and the iterator, palette/RGB via buffer_type). Non-trivial = size not a multiple of 8, or within one element of the fixed part or of the image end; distinct by hash(image, kind)",
